@@ -224,9 +224,17 @@ def scen_loop_under_a_controlled_clock(kind):
         def start(self):
             pass
 
+    reads = [0]
+
+    class Spin(BaseException):
+        pass
+
     class Controlled(sch.EventLoopScheduler):
         @property
         def now(self):
+            reads[0] += 1
+            if reads[0] > 20000:
+                raise Spin()  # the clock only moves in waits and in actions: the loop is going round without either
             return base + timedelta(seconds=clock[0])
 
     for period, work in ((1.0, 0.25), (0.5, 0.125), (2.0, 1.5)):
@@ -244,10 +252,14 @@ def scen_loop_under_a_controlled_clock(kind):
                 _box["d"].dispose()  # stop ticking: the loop then finds nothing to wait for
             return (st or 0) + 1
         box["d"] = s.schedule_periodic(period, tick, 0)
+        reads[0] = 0
         try:
             s.run()
         except Stop:
             pass
+        except Spin:
+            return (f"periodic action (period {period}) on the event loop under a controlled clock: after the calls {calls} the loop spins at clock {clock[0]} "
+                    f"without waiting and without running anything (an entry due exactly now is neither taken nor waited for)")
         want = [(round(period * (k + 1), 6), k) for k in range(4)]
         if calls != want:
             return (f"periodic action (period {period}, work {work} per call) on the event loop under a controlled clock: called at (clock, state) {calls}, "
@@ -266,10 +278,13 @@ def scen_loop_under_a_controlled_clock(kind):
     s.schedule(mk("now", 0.25))
     s.schedule_relative(1.0, mk("a", 0.25))
     s.schedule_relative(2.0, mk("b", 0.0))
+    reads[0] = 0
     try:
         s.run()
     except Stop:
         pass
+    except Spin:
+        return f"timed actions on the event loop under a controlled clock: after {started} the loop spins at clock {clock[0]} without waiting and without running anything"
     if started != [("now", 0.0), ("a", 1.0), ("b", 2.0)]:
         return f"timed actions on the event loop under a controlled clock started at {started}, expected now@0, a@1.0, b@2.0"
     return None
